@@ -398,9 +398,24 @@ func (p *Peer) handleReady(rd myraft.Ready) error {
 	if len(rd.CommittedEntries) > 0 {
 		p.beginApply(rd.CommittedEntries)
 		var toApply []myraft.Entry
+		// Entries take effect in log order: the commands collected so far are executed before
+		// a configuration change or an admin command (split, merge) that follows them.
+		applyPending := func() error {
+			if len(toApply) == 0 || p.apply == nil {
+				toApply = nil
+				return nil
+			}
+			batch := toApply
+			toApply = nil
+			return p.apply(batch)
+		}
 		for _, entry := range rd.CommittedEntries {
 			switch entry.Type {
 			case myraft.EntryConfChange:
+				if err := applyPending(); err != nil {
+					p.finishApply(rd.CommittedEntries)
+					return err
+				}
 				var cc raftpb.ConfChange
 				if err := cc.Unmarshal(entry.Data); err != nil {
 					return err
@@ -411,6 +426,10 @@ func (p *Peer) handleReady(rd myraft.Ready) error {
 					return err
 				}
 			case myraft.EntryConfChangeV2:
+				if err := applyPending(); err != nil {
+					p.finishApply(rd.CommittedEntries)
+					return err
+				}
 				var cc raftpb.ConfChangeV2
 				if err := cc.Unmarshal(entry.Data); err != nil {
 					return err
@@ -424,6 +443,10 @@ func (p *Peer) handleReady(rd myraft.Ready) error {
 					continue
 				}
 				if isAdminEntry(entry.Data) {
+					if err := applyPending(); err != nil {
+						p.finishApply(rd.CommittedEntries)
+						return err
+					}
 					cmd, err := decodeAdminCommand(entry.Data)
 					if err != nil {
 						return err
